@@ -155,6 +155,28 @@ func Known(id string, region bool) bool {
 // Cut ends the path (neither success nor failure).
 func Cut() { panic(CutPath{}) }
 
+// And, Or, Implies combine conditions without branching (one solver term
+// under the engine; the operands are evaluated eagerly).
+func And(cs ...bool) bool {
+	for _, c := range cs {
+		if !c {
+			return false
+		}
+	}
+	return true
+}
+
+func Or(cs ...bool) bool {
+	for _, c := range cs {
+		if c {
+			return true
+		}
+	}
+	return false
+}
+
+func Implies(a, b bool) bool { return !a || b }
+
 // Thorough reports whether the check runs in the thorough tier (harnesses
 // pick their larger bounds with it).
 func Thorough() bool { return cur != nil && cur.Thorough }
